@@ -127,7 +127,7 @@ func main() {
 	// vacuity: every status-before x outcome class the clauses talk about must have occurred
 	for _, need := range []string{"created/yield", "created/exc:TypeError", "suspended/yield", "suspended/stop", "suspended/exc:KeyError", "done-ret/stop", "done-exc/stop"} {
 		if only != "iter" && g.byPreOut.snapshot()[need] == 0 {
-			common.Inconclusive("property=C05 vacuous run: no call of class %s was generated", need)
+			common.Vacuous("property=C05 vacuous run: no call of class %s was generated", need)
 		}
 	}
 	rep.Finish()
